@@ -77,16 +77,47 @@ class World:
 
 
 def real_state(w):
+    """every non-dunder, non-callable attribute of the TrueSingleton metaclass (not only the known table)"""
+    import types
+
+    def cv(x):
+        if isinstance(x, (int, float, str, bytes, bool, type(None))):
+            return (type(x).__name__, x)
+        if isinstance(x, type):
+            return ("cls", w.names[w.cls.index(x)] if x in w.cls else x.__name__)
+        if isinstance(x, dict):
+            keyed = sorted(((repr(cv(k)), v) for k, v in x.items()), key=lambda kv: kv[0])
+            return ("dict",) + tuple((k, cv(v)) for k, v in keyed)
+        if isinstance(x, (list, tuple)):
+            return (type(x).__name__,) + tuple(cv(e) for e in x)
+        if isinstance(x, (set, frozenset)):
+            return ("set",) + tuple(sorted(repr(cv(e)) for e in x))
+        if any(isinstance(x, c) for c in w.cls):
+            return ("inst", type(x).__name__, getattr(x, "init_count", None))
+        return ("other", type(x).__name__)
+
     out = []
     for name in sorted(vars(S.TrueSingleton)):
+        if name.startswith("__") and name.endswith("__"):
+            continue
         val = vars(S.TrueSingleton)[name]
-        if isinstance(val, dict) and not name.startswith("__"):
-            items = []
-            for k, v in val.items():
-                kn = w.names[w.cls.index(k)] if k in w.cls else repr(k)
-                items.append((kn, type(v).__name__, getattr(v, "init_count", None)))
-            out.append((name, tuple(sorted(items))))
+        if isinstance(val, (types.FunctionType, types.MethodType, classmethod, staticmethod, property)):
+            continue
+        if callable(val) and not isinstance(val, type):
+            continue
+        out.append((name, cv(val)))
     return tuple(out)
+
+
+def live_classes(w):
+    """names of the pool classes that have an entry in some dict attribute of the metaclass"""
+    live = set()
+    for name, val in vars(S.TrueSingleton).items():
+        if isinstance(val, dict) and not (name.startswith("__") and name.endswith("__")):
+            for k in val:
+                if k in w.cls:
+                    live.add(w.names[w.cls.index(k)])
+    return sorted(live)
 
 
 class Sys:
@@ -178,10 +209,8 @@ class Sys:
         bad = list(post.step_bad)
         # the real table must hold exactly the model's live classes
         live_model = sorted(post.names[i] for i, m in enumerate(post.model) if m is not None)
-        for name, items in real_state(post):
-            live_real = sorted(i[0] for i in items)
-            if live_real != live_model:
-                bad.append("live-classes-differ-from-model")
+        if live_classes(post) != live_model:
+            bad.append("live-classes-differ-from-model")
         if not bad:
             return []
         had = pre.model[op[1]] is not None if op[0] != "clear_all" else any(m is not None for m in pre.model)
@@ -231,7 +260,7 @@ def run(tier, seed, log):
             rep.add(fp, rec, n)
         tot["states"] += res.states
         tot["transitions"] += res.transitions
-        tot["validated"] += res.validated + res.transitions
+        tot["validated"] += res.validated
         tot["nontrivial"] += res.nontrivial
         tot["outcomes"] += len(res.outcomes)
         exhaustive = exhaustive and res.exhaustive
